@@ -131,6 +131,12 @@ func (e *specEnv) objVal(obj types.Object) (SVal, error) {
 			}
 		}
 	}
+	if fo, ok := obj.(*types.Func); ok && e.fx.eng.prog != nil {
+		// a package-level function used as a value: the constant that stands for it wherever it is passed around
+		if fn := e.fx.eng.prog.FuncValue(fo); fn != nil {
+			return SVal{V: Val{Fn: fn, Known: true}, Ty: fo.Type()}, nil
+		}
+	}
 	return SVal{}, fmt.Errorf("unsupported package object %s", obj.Name())
 }
 
